@@ -8,7 +8,16 @@
    textbook register machine (Spec/RegisterSpec.v): it returns the values read, the final register
    file and whether the history was cut short by an evaluation error.  [assemble] lays the values
    read out as output rows (GETVAR items under their names, pure items with their values, SETVAR
-   items nothing). *)
+   items nothing).
+
+   Select items: SETVAR(k, e) | GETVAR(k) AS name | e AS name | CASE WHEN c THEN b ... [ELSE b] END
+   AS name, where a branch b is a call-free expression or the call SETVAR(k, e) ([VCase], [BExpr],
+   [BSet]).  A CASE item denotes one guarded choice [RCase] of the register machine: the guards are
+   the conditions (they may read registers), decided once, in order, before any write; their
+   outcomes are part of the values read, which is how [assemble] knows the branch taken on each row
+   (a call-free branch: its value under the item's name; a SETVAR branch: no column; no branch and
+   no ELSE: NULL).  Rows of one result may therefore have different columns: [row_cols data m cur
+   items] is the list of columns the select list produces on row [cur] when reached with map [m]. *)
 From Coq Require Import Floats.
 From GenqlV Require Import Base.Prelude Base.Value Model.Ast Model.Eval Model.Vars
                            Spec.RegisterSpec Spec.VarsHistory Proofs.C20Lemmas.
@@ -72,18 +81,129 @@ Theorem C20_set_then_get_row : forall (Q : Type) (data : value) st cur k (e : ex
 Proof. exact set_then_get_row. Qed.
 Print Assumptions C20_set_then_get_row.
 
-(* SETVAR adds no column: the keys of an output row are exactly the names of the other items *)
+(* SETVAR adds no column: the keys of an output row are exactly the names of the other items -
+   where a CASE item counts on the rows on which the branch it takes is not a SETVAR
+   ([row_cols], Spec/VarsHistory.v) *)
 Theorem C20_setvar_no_column : forall (Q : Type) (data : value) (items : list (item Q)) m cur acc out m',
   run_row data m cur items acc = (Ok out, m') ->
-  forall n, In n (keys out) <-> In n (keys acc) \/ In n (item_names items).
+  forall n, In n (keys out) <-> In n (keys acc) \/ In n (row_cols data m cur items).
 Proof. exact setvar_no_column. Qed.
 Print Assumptions C20_setvar_no_column.
 
 Theorem C20_setvar_no_column_rows : forall (Q : Type) (data : value) rows (items : list (item Q)) m outs m',
   run_rows data m items rows = (Ok outs, m') ->
-  Forall (fun out => forall n, In n (keys out) <-> In n (item_names items)) outs.
+  Forall2 (fun out cols => forall n, In n (keys out) <-> In n cols)
+          outs (rows_cols data m items rows).
 Proof. exact setvar_no_column_rows. Qed.
 Print Assumptions C20_setvar_no_column_rows.
+
+(* without CASE items every row has the same columns, whatever the map: the two statements in the
+   form they had before CASE items were modelled *)
+Theorem C20_setvar_no_column_static : forall (Q : Type) (data : value) (items : list (item Q)) m cur acc out m',
+  case_free items ->
+  run_row data m cur items acc = (Ok out, m') ->
+  forall n, In n (keys out) <-> In n (keys acc) \/ In n (item_names items).
+Proof. exact setvar_no_column_static. Qed.
+Print Assumptions C20_setvar_no_column_static.
+
+Theorem C20_setvar_no_column_rows_static : forall (Q : Type) (data : value) rows (items : list (item Q)) m outs m',
+  case_free items ->
+  run_rows data m items rows = (Ok outs, m') ->
+  Forall (fun out => forall n, In n (keys out) <-> In n (item_names items)) outs.
+Proof. exact setvar_no_column_rows_static. Qed.
+Print Assumptions C20_setvar_no_column_rows_static.
+
+(* with CASE items: whatever branches are taken, no column appears that is not the name of an item
+   other than a SETVAR *)
+Theorem C20_setvar_no_foreign_column : forall (Q : Type) (data : value) (items : list (item Q)) m cur acc out m',
+  run_row data m cur items acc = (Ok out, m') ->
+  forall n, In n (keys out) -> In n (keys acc) \/ In n (item_names items).
+Proof. exact setvar_no_foreign_column. Qed.
+Print Assumptions C20_setvar_no_foreign_column.
+
+(* ------------------------------------------------------------------ *)
+(* CASE items: the branch taken decides                                *)
+(* ------------------------------------------------------------------ *)
+
+(* [pick data m cur whens els] is CaseExpr's loop: the conditions in order against the map as it is
+   when the item is reached; the first that is true selects its arm, none: ELSE *)
+Theorem C20_pick_laws : forall (Q : Type) (data : value) m cur,
+  (forall (els : option (branch Q)), pick data m cur [] els = Ok els) /\
+  (forall (c : expr Q) b ws els,
+     eval (env_rd data m) cur c = Ok (RVal (VBool true)) ->
+     pick data m cur ((c, b) :: ws) els = Ok (Some b)) /\
+  (forall (c : expr Q) b ws els,
+     eval (env_rd data m) cur c = Ok (RVal (VBool false)) ->
+     pick data m cur ((c, b) :: ws) els = pick data m cur ws els).
+Proof.
+  intros Q data m cur.
+  exact (conj (pick_nil Q data m cur) (conj (pick_true Q data m cur) (pick_false Q data m cur))).
+Qed.
+Print Assumptions C20_pick_laws.
+
+(* (a) the branch taken is a call-free expression e: on that row the item IS  e AS name, and the
+   map is left alone *)
+Theorem C20_case_takes_expr : forall (Q : Type) (data : value) m cur acc whens els name (e : expr Q),
+  pick data m cur whens els = Ok (Some (BExpr e)) ->
+  run_item data m cur acc (VCase whens els name) = run_item data m cur acc (VPure e name) /\
+  snd (run_item data m cur acc (VCase whens els name)) = m.
+Proof. exact case_takes_expr. Qed.
+Print Assumptions C20_case_takes_expr.
+
+(* (b) the branch taken is SETVAR(k, v): on that row the item IS the item SETVAR(k, v) - same
+   outcome, same map afterwards - and when it succeeds the output row gets no column *)
+Theorem C20_case_takes_set : forall (Q : Type) (data : value) m cur acc whens els name (k v : expr Q),
+  pick data m cur whens els = Ok (Some (BSet k v)) ->
+  run_item data m cur acc (VCase whens els name) = run_item data m cur acc (VSet k v) /\
+  (forall out m', run_item data m cur acc (VCase whens els name) = (Ok out, m') -> out = acc).
+Proof. exact case_takes_set. Qed.
+Print Assumptions C20_case_takes_set.
+
+(* ... spelled out: the map afterwards is the map with the key's register overwritten *)
+Theorem C20_case_set_effect : forall (Q : Type) (data : value) st cur acc whens els name (k v : expr Q) kv ks vv,
+  pick data (Some st) cur whens els = Ok (Some (BSet k v)) ->
+  arg (env_pure data) cur k = Ok kv -> key_of kv = Ok ks ->
+  arg (env_rd data (Some st)) cur v = Ok vv ->
+  run_item data (Some st) cur acc (VCase whens els name) = (Ok acc, Some (obj_set ks vv st)).
+Proof. exact case_set_effect. Qed.
+Print Assumptions C20_case_set_effect.
+
+(* no condition holds and there is no ELSE: NULL under the item's name *)
+Theorem C20_case_takes_nothing : forall (Q : Type) (data : value) m cur acc (whens : list (expr Q * branch Q)) name,
+  pick data m cur whens None = Ok None ->
+  run_item data m cur acc (VCase whens None name) = (Ok (obj_set name VNull acc), m).
+Proof. exact case_takes_nothing. Qed.
+Print Assumptions C20_case_takes_nothing.
+
+(* a condition that fails or is not a truth value: the item fails, nothing is stored *)
+Theorem C20_case_cond_fails : forall (Q : Type) (data : value) m cur acc (whens : list (expr Q * branch Q)) els name,
+  is_ok (pick data m cur whens els) = false ->
+  is_ok (fst (run_item data m cur acc (VCase whens els name))) = false /\
+  snd (run_item data m cur acc (VCase whens els name)) = m.
+Proof. exact case_cond_fails. Qed.
+Print Assumptions C20_case_cond_fails.
+
+(* the two shapes  CASE WHEN c THEN SETVAR(k, v) ELSE e END AS name  and
+   CASE WHEN c THEN e ELSE SETVAR(k, v) END AS name,  read off the condition *)
+Theorem C20_case_then_set : forall (Q : Type) (data : value) m cur acc (c k v e : expr Q) name,
+  (eval (env_rd data m) cur c = Ok (RVal (VBool true)) ->
+   run_item data m cur acc (VCase [(c, BSet k v)] (Some (BExpr e)) name) =
+   run_item data m cur acc (VSet k v)) /\
+  (eval (env_rd data m) cur c = Ok (RVal (VBool false)) ->
+   run_item data m cur acc (VCase [(c, BSet k v)] (Some (BExpr e)) name) =
+   run_item data m cur acc (VPure e name)).
+Proof. exact case_then_set. Qed.
+Print Assumptions C20_case_then_set.
+
+Theorem C20_case_else_set : forall (Q : Type) (data : value) m cur acc (c k v e : expr Q) name,
+  (eval (env_rd data m) cur c = Ok (RVal (VBool true)) ->
+   run_item data m cur acc (VCase [(c, BExpr e)] (Some (BSet k v)) name) =
+   run_item data m cur acc (VPure e name)) /\
+  (eval (env_rd data m) cur c = Ok (RVal (VBool false)) ->
+   run_item data m cur acc (VCase [(c, BExpr e)] (Some (BSet k v)) name) =
+   run_item data m cur acc (VSet k v)).
+Proof. exact case_else_set. Qed.
+Print Assumptions C20_case_else_set.
 
 (* after the query the map holds, per key, the last value written; untouched keys are unchanged
    (also when the query failed half-way: the writes made until then) *)
@@ -128,6 +248,12 @@ Theorem C20_setvar_nil_map_fails : forall (Q : Type) (data : value) cur acc (k e
   is_ok (fst (run_item data None cur acc (VSet k e))) = false.
 Proof. exact setvar_nil_map_fails. Qed.
 Print Assumptions C20_setvar_nil_map_fails.
+
+Theorem C20_case_set_nil_map_fails : forall (Q : Type) (data : value) cur acc whens els name (k e : expr Q),
+  pick data None cur whens els = Ok (Some (BSet k e)) ->
+  is_ok (fst (run_item data None cur acc (VCase whens els name))) = false.
+Proof. exact case_set_nil_map_fails. Qed.
+Print Assumptions C20_case_set_nil_map_fails.
 
 (* ... and no panic escapes exec(), whatever the map *)
 Theorem C20_no_panic : forall (Q : Type) (data : value) m (q : query Q) rows,
@@ -185,3 +311,127 @@ Example C20_nonvacuous_sequence :
     [ [("a", VNum 1); ("s", VNum 1)]; [("a", VNum 2); ("s", VStr "boom")]; [("a", VNum 3); ("s", VNum 1)] ] =
   (Err, Some [("k", VNum 2)]).
 Proof. vm_compute. repeat split. Qed.
+
+(* ------------------------------------------------------------------ *)
+(* non-vacuity for CASE items: a 3-row table, rows taking different branches *)
+(* (each Example below was run on the real engine: /tmp/goB, REPORT-B.md) *)
+(* ------------------------------------------------------------------ *)
+
+Definition cx_rows : list row :=
+  [ [("b", VBool true);  ("id", VNum 1); ("n", VNum 5);  ("s", VStr "x")];
+    [("b", VBool false); ("id", VNum 2); ("n", VNum 20); ("s", VStr "y")];
+    [("b", VBool true);  ("id", VNum 3); ("n", VNum 7);  ("s", VStr "x")] ].
+
+Definition gv (k : string) : expr Empty_set := ECall "" "getvar" [EStr k].
+Definition cq (items : list (item Empty_set)) : query Empty_set := Build_query None items.
+
+(* E1  SELECT id, CASE WHEN n < 10 THEN SETVAR('last_small', id) ELSE n END AS big,
+              GETVAR('last_small') AS seen FROM t
+   rows 1 and 3 take the SETVAR branch (no column big), row 2 the ELSE branch *)
+Definition cx1 : list (item Empty_set) :=
+  [ VPure (ECol ["id"]) "id";
+    VCase [(ECmp OpLt (ECol ["n"]) (ENum 10), BSet (EStr "last_small") (ECol ["id"]))]
+          (Some (BExpr (ECol ["n"]))) "big";
+    VGet (EStr "last_small") "seen" ].
+
+Example C20_case_then_set_example :
+  run_query VNull (Some []) (cq cx1) cx_rows =
+  (Ok [ [("id", VNum 1); ("seen", VNum 1)];
+        [("big", VNum 20); ("id", VNum 2); ("seen", VNum 1)];
+        [("id", VNum 3); ("seen", VNum 3)] ],
+   Some [("last_small", VNum 3)]) /\
+  rows_cols VNull (Some []) cx1 cx_rows = [ ["id"; "seen"]; ["id"; "big"; "seen"]; ["id"; "seen"] ].
+Proof. vm_compute. split; reflexivity. Qed.
+
+(* its history: per row one RCase (one guard outcome read) and one RGet; two writes *)
+Example C20_case_history_example :
+  let h := query_history VNull cx1 cx_rows in
+  let '(rs, r', ab) := run_reg (abs []) h in
+  List.length h = 6 /\ ab = false /\
+  rs = [VBool true; VNum 1; VBool false; VNum 1; VBool true; VNum 3] /\
+  writes (abs []) h = [("last_small", VNum 1); ("last_small", VNum 3)] /\
+  r' "last_small" = Some (VNum 3) /\
+  fst (assemble VNull cx1 cx_rows rs) =
+    [ [("id", VNum 1); ("seen", VNum 1)];
+      [("big", VNum 20); ("id", VNum 2); ("seen", VNum 1)];
+      [("id", VNum 3); ("seen", VNum 3)] ].
+Proof. vm_compute. repeat split. Qed.
+
+(* E2  SELECT CASE WHEN GETVAR('first') IS NOT NULL THEN id ELSE SETVAR('first', id) END AS later,
+              GETVAR('first') AS first FROM t
+   the condition reads the map as it is when the item is reached: row 1 takes ELSE (the SETVAR),
+   rows 2 and 3 the THEN branch *)
+Definition cx2 : list (item Empty_set) :=
+  [ VCase [(EIs IsNotNull (gv "first"), BExpr (ECol ["id"]))]
+          (Some (BSet (EStr "first") (ECol ["id"]))) "later";
+    VGet (EStr "first") "first" ].
+
+Example C20_case_else_set_example :
+  run_query VNull (Some []) (cq cx2) cx_rows =
+  (Ok [ [("first", VNum 1)];
+        [("first", VNum 1); ("later", VNum 2)];
+        [("first", VNum 1); ("later", VNum 3)] ],
+   Some [("first", VNum 1)]).
+Proof. vm_compute. reflexivity. Qed.
+
+(* E3  SELECT CASE WHEN n > 15 THEN SETVAR('hi', GETVAR('hi') + n) WHEN n > 6 THEN SETVAR('mid', id)
+              END AS none FROM t          (map before: hi = 100)
+   two arms, no ELSE: row 1 no arm (NULL), row 2 the first arm, row 3 the second *)
+Definition cx3 : list (item Empty_set) :=
+  [ VCase [(ECmp OpGt (ECol ["n"]) (ENum 15), BSet (EStr "hi") (EBin BAdd (gv "hi") (ECol ["n"])));
+           (ECmp OpGt (ECol ["n"]) (ENum 6), BSet (EStr "mid") (ECol ["id"]))]
+          None "none" ].
+
+Example C20_case_arms_no_else_example :
+  run_query VNull (Some [("hi", VNum 100)]) (cq cx3) cx_rows =
+  (Ok [ [("none", VNull)]; []; [] ], Some [("hi", VNum 120); ("mid", VNum 3)]).
+Proof. vm_compute. reflexivity. Qed.
+
+(* E4 / E8  a condition that is not a Go bool (a column holding one is a ColumnName; NULL): error,
+   nothing stored.
+   E5a / E5b  without WithVars: reaching the SETVAR branch fails (recovered nil-map write), not
+   reaching it is fine.
+   E6a / E6b  a failing ELSE ('x' + 1) matters only on the rows that take it; the writes made
+   before the failure stay.
+   E7  SELECT SETVAR('c', n), CASE WHEN GETVAR('c') > 6 THEN SETVAR('big', GETVAR('c'))
+              ELSE SETVAR('small', GETVAR('c')) END AS x, id FROM t
+   E9  SELECT CASE WHEN n < 10 THEN SETVAR(s, id) ELSE n END AS id2, id AS id2 FROM t *)
+Definition cx_set_or (c : expr Empty_set) (e : expr Empty_set) : list (item Empty_set) :=
+  [ VCase [(c, BSet (EStr "k") (ECol ["id"]))] (Some (BExpr e)) "x" ].
+
+Example C20_case_more_examples :
+  run_query VNull (Some []) (cq (cx_set_or (ECol ["b"]) (ECol ["n"]))) cx_rows = (Err, Some []) /\
+  run_query VNull (Some []) (cq (cx_set_or (gv "unset") (ECol ["n"]))) cx_rows = (Err, Some []) /\
+  run_query VNull None (cq (cx_set_or (ECmp OpLt (ECol ["n"]) (ENum 10)) (ECol ["n"]))) cx_rows = (Err, None) /\
+  run_query VNull None (cq (cx_set_or (ECmp OpGt (ECol ["n"]) (ENum 100)) (ECol ["n"]))) cx_rows =
+    (Ok [ [("x", VNum 5)]; [("x", VNum 20)]; [("x", VNum 7)] ], None) /\
+  run_query VNull (Some []) (cq (cx_set_or (ECmp OpLt (ECol ["n"]) (ENum 100)) (EBin BAdd (ECol ["s"]) (ENum 1)))) cx_rows =
+    (Ok [ []; []; [] ], Some [("k", VNum 3)]) /\
+  run_query VNull (Some []) (cq (cx_set_or (ECmp OpLt (ECol ["n"]) (ENum 10)) (EBin BAdd (ECol ["s"]) (ENum 1)))) cx_rows =
+    (Err, Some [("k", VNum 1)]) /\
+  run_query VNull (Some [])
+    (cq [ VSet (EStr "c") (ECol ["n"]);
+          VCase [(ECmp OpGt (gv "c") (ENum 6), BSet (EStr "big") (gv "c"))]
+                (Some (BSet (EStr "small") (gv "c"))) "x";
+          VPure (ECol ["id"]) "id" ]) cx_rows =
+    (Ok [ [("id", VNum 1)]; [("id", VNum 2)]; [("id", VNum 3)] ],
+     Some [("big", VNum 7); ("c", VNum 7); ("small", VNum 5)]) /\
+  run_query VNull (Some [])
+    (cq [ VCase [(ECmp OpLt (ECol ["n"]) (ENum 10), BSet (ECol ["s"]) (ECol ["id"]))]
+                (Some (BExpr (ECol ["n"]))) "id2";
+          VPure (ECol ["id"]) "id2" ]) cx_rows =
+    (Ok [ [("id2", VNum 1)]; [("id2", VNum 2)]; [("id2", VNum 3)] ], Some [("x", VNum 3)]).
+Proof. vm_compute. repeat split. Qed.
+
+(* E10  two queries sharing one map:
+     SELECT CASE WHEN n < 10 THEN SETVAR('last_small', id) ELSE n END AS big FROM t
+     SELECT CASE WHEN GETVAR('last_small') = id THEN 'me' ELSE SETVAR('other', id) END AS who FROM t *)
+Example C20_case_sequence_example :
+  run_queries VNull (Some [])
+    [ (cq [ VCase [(ECmp OpLt (ECol ["n"]) (ENum 10), BSet (EStr "last_small") (ECol ["id"]))]
+                  (Some (BExpr (ECol ["n"]))) "big" ], cx_rows);
+      (cq [ VCase [(ECmp OpEq (gv "last_small") (ECol ["id"]), BExpr (EStr "me"))]
+                  (Some (BSet (EStr "other") (ECol ["id"]))) "who" ], cx_rows) ] =
+  [ (Ok [ []; [("big", VNum 20)]; [] ], Some [("last_small", VNum 3)]);
+    (Ok [ []; []; [("who", VStr "me")] ], Some [("last_small", VNum 3); ("other", VNum 2)]) ].
+Proof. vm_compute. reflexivity. Qed.
